@@ -285,7 +285,7 @@ func (rep *Report) takeTrace(def *propDef, st *TraceStats, cfg TraceSpecCfg, err
 			if perKind[ex.Div.Kind] >= 3 {
 				continue
 			}
-			if orderExplains(ex.Div.Kind) && ex.Rec != nil && ex.Rec.Variant == "" {
+			if orderExplains(ex.Div.Kind) && ex.Rec != nil {
 				if ok, _ := vetFreeOrder(def, ex.Rec.Cat, ex.Rec.Opt, ex.Rec.Ops); ok {
 					rep.note("order-tolerated."+ex.Div.Kind, ex.Div.Detail)
 					continue
@@ -651,7 +651,7 @@ func replayMain(args []string) int {
 		for _, ex := range st.Examples {
 			mark := " "
 			if def.claims(ex.Div.Kind, ex.Div.Detail) {
-				if orderExplains(ex.Div.Kind) && ex.Rec != nil && ex.Rec.Variant == "" {
+				if orderExplains(ex.Div.Kind) && ex.Rec != nil {
 					if ok, _ := vetFreeOrder(def, ex.Rec.Cat, ex.Rec.Opt, ex.Rec.Ops); ok {
 						fmt.Printf("~ %s op=%d: %s (allowed under another build order)\n", ex.Div.Kind, ex.Div.Op, ex.Div.Detail)
 						continue
